@@ -649,6 +649,10 @@ def _fit_windows(
 
     windows = _clip_to_data_range(data, windows)
     _separate_from_neighbors_in_place(center, windows, fit_parameters)
+    # For estimates outside of the data range, the separation from a neighbor can
+    # move an edge beyond the data and past the other edge.
+    # Clip again to get a valid (empty) window in that case.
+    windows = _clip_to_data_range(data, windows)
 
     return windows
 
